@@ -19,7 +19,7 @@ LEVEL = "exploration"
 RULE = ("complete choice tree (no deviation bound) of the real SMC loop with N in {2,3}: initial population and population "
         "after each of the first 2 iterations chosen from {flat, spread 3, spread 1e3} (the initial one also from a population with a zero-likelihood particle), every resampling index tuple with "
         "non-zero probability; schedules: fixed n=1,2,3, adaptive (eff 0.5/0.9), adaptive+min_step, floor+cap, and runs that the step cap ends below temperature 1; each execution is paired "
-        "with a run sharing all choices that adds n_final_samples or a checkpoint callback (every 1 / 2); continuous 2-D runs are interrupted at every user-callable call and resumed from the last checkpoint (pickled bytes and the live dictionary) and must report the same ratios and evidence. "
+        "with a run sharing all choices that adds n_final_samples or a checkpoint callback (every 1 / 2); continuous 2-D runs are interrupted at every user-callable call and resumed from the last checkpoint (pickled bytes, the live dictionary, and the pickled bytes handed back to the interrupted sampler object itself) and must report the same ratios and evidence. "
         "Plus the per-step ratio and variance methods on populations in {numpy, torch, jax} x {float32, float64} against the definitions. non-trivial = at least one step whose incremental weights are not all equal")
 ASSUMPTIONS = [
     "teleport kernel stub (evidence accumulation does not depend on how the kernel moves particles)",
@@ -140,8 +140,9 @@ def run_interrupted(cfg):
         if not F.sink:
             r.case(explorer.digest([cfg, k]), nontrivial=False)
             continue
-        for route, src in (("bytes", F.sink[-1][1]), ("live-dict", F.live[-1])):
-            rr = rh.run(cfg, resume_from=src)
+        for route, src in (("bytes", F.sink[-1][1]), ("live-dict", F.live[-1]), ("same-sampler-object", F.sink[-1][1])):
+            # the last route asks the interrupted sampler object itself to carry on (it consumes F: kept last)
+            rr = rh.resume_on_same_sampler(F, src) if route == "same-sampler-object" else rh.run(cfg, resume_from=src)
             case = {"interrupted": True, "cfg": cfg, "crash_point": k, "route": route}
             r.case(explorer.digest([cfg, k, route]), nontrivial=True)
             if rr.exception is not None:
